@@ -86,7 +86,7 @@ def run(tier, seed, replay=None):
         of = os.path.join(wd, "rust_%s.out" % prof)
         tmp = os.path.join(wd, "iso_" + prof)
         C.sh(["rm", "-rf", tmp])
-        C.sh([exe, "--isolate", casefile, of, tmp, "150000"], timeout=7000)
+        C.sh([exe, "--isolate", casefile, of, tmp, "60000"], timeout=7000)
         R = C.read_obs(of)
         mfile = os.path.join(wd, "model_cases_%s.txt" % prof)
         with open(mfile, "w") as f:
@@ -110,7 +110,7 @@ def run(tier, seed, replay=None):
             rl = [l for l in ls if l.startswith("reads ")]
             body = case_text(c)
             if oc != "EXIT0" or not rl:
-                what = "deadlock or livelock (no result within 150 s)" if oc == "TIMEOUT" else "the process ended with %s" % oc
+                what = "deadlock or livelock (no result within 60 s)" if oc == "TIMEOUT" else "the process ended with %s" % oc
                 res.violation("C07: %s with %d reader threads on one container (%s, %s build)" % (what, c["threads"], c["id"], prof), body)
                 continue
             kv = dict(x.split("=") for x in rl[0].split(" ")[1:])
